@@ -1882,7 +1882,14 @@ class Interp:
                 self.conv_uses.append((fi, node, "encode", [recv] + list(args), dict(kwargs), st.snap(), None))
                 if isinstance(recv, ConstV):
                     return ConstV(recv.value.encode())
-                return self.fresh_bytes(st, ("encode", recv.term))
+                # the term is the plain ("encode", x) only for strict UTF-8; any other codec or error handler is part of the term
+                cargs = [a.value if isinstance(a, ConstV) else "?" for a in args]
+                ckw = {k: (v.value if isinstance(v, ConstV) else "?") for k, v in kwargs.items()}
+                codec = cargs[0] if cargs else ckw.get("encoding", "utf-8")
+                errors = cargs[1] if len(cargs) > 1 else ckw.get("errors", "strict")
+                if isinstance(codec, str) and codec.lower().replace("_", "-") in ("utf-8", "utf8", "u8") and errors == "strict" and len(cargs) <= 2:
+                    return self.fresh_bytes(st, ("encode", recv.term))
+                return self.fresh_bytes(st, ("encode-with", recv.term, str(codec), str(errors)))
             if name in ("isprintable", "isupper", "islower", "startswith", "endswith"):
                 return BoolV(None, name)
             if name == "join":
